@@ -32,6 +32,18 @@ def queries(tier):
         seen.add(w)
         qs.append(Query("push-" + skel.tag(w), "c06/push.c", tus=TUS, env=ENV, defs={"SKEL": w}, unwind=30, timeout=300,
                         params={"protocol": "push0", "skeleton": w}))
+    PULL_CUR = ["A(0) W(0) R(0,1) Z", "A(0) R(0,1) W(0) Z", "A(0) A(1) W(0) W(1) R(0,0) R(1,0) R(2,0) Z", "A(0) W(0) C(0) R(0,0) Z",
+                "A(0) R(0,1) X(0) W(0) R(1,0) Z", "A(0) R(0,1) R(1,1) W(0) W(0) Z", "A(0) W(0) R(0,0) W(0) R(1,0) W(0) R(2,1) Z",
+                "A(0) R(0,1) Z", "A(0) W(0) Z", "A(0) A(1) R(0,1) W(1) W(0) R(1,0) C(1) Z", "R(0,0) A(0) W(0) R(1,0) Z"]
+    PULL_ALPHA = ["A(0)", "A(1)", "W(0)", "W(1)", "R(%d,1)", "R(%d,0)", "C(0)", "X(0)"]
+    words = list(PULL_CUR) + skel.enumerate_words(PULL_ALPHA, 4, first=["A(0)", "R(%d,1)", "R(%d,0)"], limit=120 if tier == "quick" else 2500)
+    seen = set()
+    for w in words:
+        if w in seen:
+            continue
+        seen.add(w)
+        qs.append(Query("pull-" + skel.tag(w), "c06/pull.c", tus=TUS, env=ENV, defs={"SKEL": w}, unwind=30, timeout=300,
+                        params={"protocol": "pull0", "skeleton": w}))
     return qs
 
 MANIFEST = {
